@@ -8,6 +8,8 @@
 #include <dlfcn.h>
 #include <errno.h>
 #include <fcntl.h>
+#include <pthread.h>
+#include <sched.h>
 #include <stdarg.h>
 #include <sys/stat.h>
 #include <sys/types.h>
@@ -38,7 +40,19 @@ static vector<Img> g_imgs;
 static string g_calls;
 static bool g_capture = false;
 static __thread int g_inside = 0;
-static std::map<int, char> g_fds;   // fd -> 'c' (settings file) or 't' (temporary)
+// fd -> 'c' (settings file) or 't' (temporary), 0 = not ours.  A plain array: the interposers run on
+// both threads at once (the caller's write to the wake-up pipe, the saver's file calls), a std::map
+// here would be a data race inside the harness.
+static volatile char g_fdkind[4096];
+static inline bool fd_tracked(int fd) { return fd >= 0 && fd < 4096 && g_fdkind[fd]; }
+static inline void fd_track(int fd, char w) { if (fd >= 0 && fd < 4096) g_fdkind[fd] = w; }
+static inline char fd_untrack(int fd) { if (fd < 0 || fd >= 4096) return 0; char w = g_fdkind[fd]; g_fdkind[fd] = 0; return w; }
+static inline void fd_clear() { for (int i = 0; i < 4096; i++) g_fdkind[i] = 0; }
+static volatile int g_spurious = 0;     // number of spurious wake-ups still to inject into pthread_cond_wait
+static volatile int g_spurious_seen = 0;
+static volatile int g_slow_us = 0;      // the saver's open of the temporary takes this long (slow disk)
+static volatile int g_fail_from = 0;    // writes to the settings file / temporary fail (ENOSPC) from this one on
+static volatile int g_writes = 0;
 
 #define REAL(name) real_##name
 #define RESOLVE(name) do { if (!REAL(name)) *(void**)(&REAL(name)) = dlsym(RTLD_NEXT, #name); } while (0)
@@ -105,21 +119,22 @@ FILE *fopen(const char *path, const char *mode) {
   RESOLVE(fopen);
   FILE *f = real_fopen(path, mode);
   char w = g_inside ? 0 : which(path);
-  if (f && w && mode && mode[0] != 'r') { g_fds[fileno(f)] = w; event(w == 'c' ? 'O' : 'o'); }
+  if (f && w && mode && mode[0] != 'r') { fd_track(fileno(f), w); event(w == 'c' ? 'O' : 'o'); }
   return f;
 }
 FILE *fopen64(const char *path, const char *mode) {
   RESOLVE(fopen64);
+  if (g_slow_us && !g_inside && which(path) && mode && mode[0] != 'r') usleep(g_slow_us);
   FILE *f = real_fopen64(path, mode);
   char w = g_inside ? 0 : which(path);
-  if (f && w && mode && mode[0] != 'r') { g_fds[fileno(f)] = w; event(w == 'c' ? 'O' : 'o'); }
+  if (f && w && mode && mode[0] != 'r') { fd_track(fileno(f), w); event(w == 'c' ? 'O' : 'o'); }
   return f;
 }
 int fclose(FILE *f) {
   RESOLVE(fclose);
   int fd = f ? fileno(f) : -1;
   char w = 0;
-  if (!g_inside && g_fds.count(fd)) { w = g_fds[fd]; g_fds.erase(fd); }
+  if (!g_inside && fd_tracked(fd)) w = fd_untrack(fd);
   int r = real_fclose(f);
   if (w) event(w == 'c' ? 'C' : 'c');
   return r;
@@ -129,7 +144,7 @@ int open(const char *path, int flags, ...) {
   va_list ap; va_start(ap, flags); mode_t m = va_arg(ap, mode_t); va_end(ap);
   int fd = real_open(path, flags, m);
   char w = g_inside ? 0 : which(path);
-  if (fd >= 0 && w && writing(flags)) { g_fds[fd] = w; event(w == 'c' ? 'O' : 'o'); }
+  if (fd >= 0 && w && writing(flags)) { fd_track(fd, w); event(w == 'c' ? 'O' : 'o'); }
   return fd;
 }
 int open64(const char *path, int flags, ...) {
@@ -137,27 +152,37 @@ int open64(const char *path, int flags, ...) {
   va_list ap; va_start(ap, flags); mode_t m = va_arg(ap, mode_t); va_end(ap);
   int fd = real_open64(path, flags, m);
   char w = g_inside ? 0 : which(path);
-  if (fd >= 0 && w && writing(flags)) { g_fds[fd] = w; event(w == 'c' ? 'O' : 'o'); }
+  if (fd >= 0 && w && writing(flags)) { fd_track(fd, w); event(w == 'c' ? 'O' : 'o'); }
   return fd;
 }
 int close(int fd) {
   RESOLVE(close);
   char w = 0;
-  if (!g_inside && g_capture && g_fds.count(fd)) { w = g_fds[fd]; g_fds.erase(fd); }
+  if (!g_inside && g_capture && fd_tracked(fd)) w = fd_untrack(fd);
   int r = real_close(fd);
   if (w) event(w == 'c' ? 'C' : 'c');
   return r;
 }
+static bool fail_this_write(int fd) {
+  if (g_inside || !g_capture || !g_fail_from || !fd_tracked(fd)) return false;
+  g_writes++;
+  if (g_writes < g_fail_from) return false;
+  event('x');
+  errno = ENOSPC;
+  return true;
+}
 ssize_t write(int fd, const void *buf, size_t n) {
   RESOLVE(write);
+  if (fail_this_write(fd)) return -1;
   ssize_t r = real_write(fd, buf, n);
-  if (!g_inside && g_capture && g_fds.count(fd)) event(g_fds[fd] == 'c' ? 'W' : 'w');
+  if (!g_inside && g_capture && fd_tracked(fd)) event(g_fdkind[fd] == 'c' ? 'W' : 'w');
   return r;
 }
 ssize_t writev(int fd, const struct iovec *iov, int cnt) {
   RESOLVE(writev);
+  if (fail_this_write(fd)) return -1;
   ssize_t r = real_writev(fd, iov, cnt);
-  if (!g_inside && g_capture && g_fds.count(fd)) event(g_fds[fd] == 'c' ? 'W' : 'w');
+  if (!g_inside && g_capture && fd_tracked(fd)) event(g_fdkind[fd] == 'c' ? 'W' : 'w');
   return r;
 }
 int rename(const char *a, const char *b) {
@@ -176,6 +201,29 @@ int remove(const char *p) {
   RESOLVE(remove);
   int r = real_remove(p);
   if (!g_inside && which(p)) event('U');
+  return r;
+}
+// ld --wrap=pthread_cond_wait: a spurious wake-up is a return of pthread_cond_wait without a
+// signal, with the mutex released and re-acquired (POSIX allows it at any time).
+int __real_pthread_cond_wait(pthread_cond_t *c, pthread_mutex_t *m);
+int __wrap_pthread_cond_wait(pthread_cond_t *c, pthread_mutex_t *m) {
+  if (g_spurious > 0) {
+    g_spurious--;
+    g_spurious_seen++;
+    pthread_mutex_unlock(m);
+    sched_yield();
+    pthread_mutex_lock(m);
+    return 0;
+  }
+  return __real_pthread_cond_wait(c, m);
+}
+// ld --wrap=pthread_cond_signal: in the Y operations the signalling thread is descheduled right
+// after the signal, so that the woken thread runs first (exposes a flag set after the signal, or
+// stack objects used after the waiter was released).
+int __real_pthread_cond_signal(pthread_cond_t *c);
+int __wrap_pthread_cond_signal(pthread_cond_t *c) {
+  int r = __real_pthread_cond_signal(c);
+  if (g_slow_us) usleep(g_slow_us);
   return r;
 }
 }  // extern "C"
@@ -240,20 +288,24 @@ static string dump_of_image(const Img &img, const string &scratch_dir) {
   return d == "!" ? "-" : d;
 }
 
-struct SaveReport { string calls, images; bool atomic; vector<Img> imgs; };
+struct SaveReport { string calls, images; bool atomic; vector<Img> imgs; Img at_return; };
 
 // run `act` (something that ends with a Save()) with capture on, then Synchronize()
 template <typename F>
 static SaveReport captured_save(F act) {
   g_imgs.clear();
   g_calls.clear();
-  g_fds.clear();
+  fd_clear();
   g_imgs.push_back(snapshot());        // image 0: before the first call
   g_capture = true;
   act();
   g_saver->Synchronize();
-  g_capture = false;
   SaveReport r;
+  g_inside++;
+  r.at_return = snapshot();            // the directory at the moment Synchronize() returns
+  g_inside--;
+  if (g_spurious_seen) usleep(20000);  // (a saver still running after a premature return settles)
+  g_capture = false;
   r.calls = g_calls.empty() ? "-" : g_calls;
   r.imgs = g_imgs;
   string scratch = g_dir + "/img";
@@ -280,7 +332,7 @@ static void set_directory(const Img &img) {
 }
 
 static string save_keys(const string &n, const SaveReport &r, const Img &final_img) {
-  return ";f" + n + "=" + file_s(final_img.has_conf, final_img.conf) +
+  return ";y" + n + "=" + file_s(r.at_return.has_conf, r.at_return.conf) + ";f" + n + "=" + file_s(final_img.has_conf, final_img.conf) +
          ";t" + n + "=" + file_s(final_img.has_tmp, final_img.tmp) +
          ";c" + n + "=" + r.calls + ";i" + n + "=" + r.images + ";a" + n + "=" + (r.atomic ? "1" : "0");
 }
@@ -357,6 +409,25 @@ static string handle(const string &payload) {
         new_process();
       }
       out += "s" + n + "=" + g_store->Dump() + save_keys(n, r, fin);
+    } else if (op == "Y") {
+      // Y:<n>  save + Synchronize() with n spurious wake-ups of the waiting thread and a slow disk
+      g_spurious_seen = 0;
+      g_spurious = vh::num(a[1]);
+      g_slow_us = 3000;
+      SaveReport r = captured_save(PlainSave());
+      g_spurious = 0;
+      g_slow_us = 0;
+      out += "s" + n + "=" + g_store->Dump() + save_keys(n, r, r.imgs.back());
+    } else if (op == "W") {
+      // W:<k>  save during which every write from the k-th on fails with ENOSPC
+      g_writes = 0;
+      g_fail_from = vh::num(a[1]);
+      SaveReport r = captured_save(PlainSave());
+      g_fail_from = 0;
+      Img fin = r.imgs.back();
+      out += "s" + n + "=" + g_store->Dump() + ";y" + n + "=" + file_s(r.at_return.has_conf, r.at_return.conf) +
+             ";f" + n + "=" + file_s(fin.has_conf, fin.conf) + ";t" + n + "=" + file_s(fin.has_tmp, fin.tmp) +
+             ";xc" + n + "=" + r.calls + ";xi" + n + "=" + r.images + ";a" + n + "=" + (r.atomic ? "1" : "0");
     } else if (op == "l") {
       g_store->Load();
       out += "s" + n + "=" + g_store->Dump();
@@ -425,7 +496,7 @@ int main(int argc, char **argv) {
   g_tmp = g_conf + ".tmp";
   g_saver = new ola::FilePreferenceSaverThread();
   g_saver->Start();
-  int r = vh::run(argc, argv, handle, 30);
+  int r = vh::run(argc, argv, handle, 6);
   delete g_factory;
   g_saver->Join();
   g_inside++;
